@@ -9,6 +9,9 @@
 // after EVERY operation the stated relation of EVERY earlier operation is evaluated again on the objects it
 // returned.
 //
+// Since round 5 also the QUESTION of the detailed clause is an operation (`accepts`), and the asserting / describing
+// calls that are handed the cached detailed type are steps (ask.go).
+//
 //	D  the relation of operation j fails after operation k >= j   (k > j: tag history-changed)
 //	M  the types held by the results at the END of the history, decoded through the hook, against
 //	   `run` of coq/Model/InferHist.v (cache model; pure by C04_history_pure)
@@ -20,6 +23,7 @@ import (
 	"strings"
 	"time"
 
+	"github.com/lyraproj/issue/issue"
 	"github.com/lyraproj/pcore/px"
 	"github.com/lyraproj/pcore/types"
 	"verifharness/lat"
@@ -41,9 +45,13 @@ type hRef struct {
 
 type hOp struct {
 	// type (build the literal type T), ptype, detailed (of object N), common (A, B), generalize (A), and the
-	// read-only calls string, tokey, generic, equals, assignable (A, B), instance (A, object N)
+	// read-only calls string, tokey, generic, equals, assignable (A, B), instance (A, object N);
+	// the question accepts (A, object N): IsAssignable(A, DetailedValueType(v)) against IsInstance(A, v);
+	// the asserting and describing calls (ask.go): assert, mismatch (A, object N), asserttype, describe (A, B);
+	// read-only calls on values: vstring, vtokey (object N), vequals (objects N, M)
 	Op string    `json:"op"`
 	N  int       `json:"n,omitempty"`
+	M  int       `json:"m,omitempty"`
 	T  *lat.Spec `json:"t,omitempty"`
 	A  *hRef     `json:"a,omitempty"`
 	B  *hRef     `json:"b,omitempty"`
@@ -94,6 +102,7 @@ func (b *hb) common(a, c int) int {
 	return b.op(hOp{Op: "common", A: &hRef{a}, B: &hRef{c}})
 }
 func (b *hb) generalize(a int) int { return b.op(hOp{Op: "generalize", A: &hRef{a}}) }
+func (b *hb) accepts(t, n int) int { return b.op(hOp{Op: "accepts", A: &hRef{t}, N: n}) }
 
 func (h *history) clone(nOps int) *history {
 	return &history{Kind: h.Kind, Family: h.Family, Nodes: h.Nodes, Ops: h.Ops[:nOps]}
@@ -107,6 +116,8 @@ type hState struct {
 	res    []px.Type // what operation k returned (nil for the read-only calls)
 	held   []bool    // the stated relation of operation k held when it was made
 	failed bool
+	ans    [][2]bool // accepts: the answers (accepts the detailed type, is an instance) as last asked; assert / asserttype: passed
+	fault  bool      // a describing call ended in a runtime fault (C19's matter: counted, the history is kept out of the model tie)
 }
 
 func (h *history) wellFormed() bool {
@@ -132,7 +143,10 @@ func (h *history) wellFormed() bool {
 		}
 	}
 	for k, o := range h.Ops {
-		if (o.Op == "ptype" || o.Op == "detailed" || o.Op == "instance") && (o.N < 0 || o.N >= len(h.Nodes)) {
+		if usesNode(o.Op) && (o.N < 0 || o.N >= len(h.Nodes)) {
+			return false
+		}
+		if o.Op == "vequals" && (o.M < 0 || o.M >= len(h.Nodes)) {
 			return false
 		}
 		for _, r := range []*hRef{o.A, o.B} {
@@ -145,17 +159,25 @@ func (h *history) wellFormed() bool {
 			if o.T == nil {
 				return false
 			}
-		case "common", "equals", "assignable":
+		case "common", "equals", "assignable", "asserttype", "describe":
 			if o.A == nil || o.B == nil {
 				return false
 			}
-		case "generalize", "string", "tokey", "generic", "instance":
+		case "generalize", "string", "tokey", "generic", "instance", "accepts", "assert", "mismatch":
 			if o.A == nil {
 				return false
 			}
 		}
 	}
 	return true
+}
+
+func usesNode(op string) bool {
+	switch op {
+	case "ptype", "detailed", "instance", "accepts", "assert", "mismatch", "vstring", "vtokey", "vequals":
+		return true
+	}
+	return false
 }
 
 func returnsType(op string) bool {
@@ -203,6 +225,8 @@ func clauseOf(op string) string {
 		return "common"
 	case "generalize":
 		return "generalize"
+	case "accepts":
+		return "accepts" // detailed_sound / detailed_complete: relation() says which
 	}
 	return ""
 }
@@ -223,6 +247,20 @@ func (s *hState) opText(k int) string {
 		return fmt.Sprintf("#%d = Generalize(%s)", k, ref(o.A))
 	case "instance":
 		return fmt.Sprintf("IsInstance(%s, %s)", ref(o.A), lat.ValText(s.vals[o.N]))
+	case "accepts":
+		return fmt.Sprintf("ask: IsAssignable(%s, DetailedValueType(v)) / IsInstance(%s, v) for v = %s", ref(o.A), ref(o.A), lat.ValText(s.vals[o.N]))
+	case "assert":
+		return fmt.Sprintf("AssertInstance(%s, %s) [%s]", ref(o.A), lat.ValText(s.vals[o.N]), passedText(s.ans[k][0]))
+	case "mismatch":
+		return fmt.Sprintf("MismatchError(%s, %s)", ref(o.A), lat.ValText(s.vals[o.N]))
+	case "asserttype":
+		return fmt.Sprintf("AssertType(%s, %s) [%s]", ref(o.A), ref(o.B), passedText(s.ans[k][0]))
+	case "describe":
+		return fmt.Sprintf("DescribeMismatch(%s, %s)", ref(o.A), ref(o.B))
+	case "vstring", "vtokey":
+		return fmt.Sprintf("%s(%s)", o.Op, lat.ValText(s.vals[o.N]))
+	case "vequals":
+		return fmt.Sprintf("(%s).Equals(%s)", lat.ValText(s.vals[o.N]), lat.ValText(s.vals[o.M]))
 	case "equals", "assignable":
 		return fmt.Sprintf("%s(%s, %s)", o.Op, ref(o.A), ref(o.B))
 	}
@@ -258,6 +296,22 @@ func (s *hState) exec(k int) (crash string) {
 			_ = px.IsAssignable(arg(o.A), arg(o.B))
 		case "instance":
 			_ = px.IsInstance(arg(o.A), s.vals[o.N])
+		case "accepts":
+			// the question is put by relation(k), and again after every later operation
+		case "assert":
+			s.ans[k][0] = passes(func() { px.AssertInstance(`h`, arg(o.A), s.vals[o.N]) })
+		case "mismatch":
+			_ = px.MismatchError(`h`, arg(o.A), s.vals[o.N])
+		case "asserttype":
+			s.ans[k][0] = passes(func() { px.AssertType(`h`, arg(o.A), arg(o.B)) })
+		case "describe":
+			_ = px.DescribeMismatch(`h`, arg(o.A), arg(o.B))
+		case "vstring": // a reported error (a Sensitive is no hash key) is an answer of these calls, not a fault
+			_ = passes(func() { _ = s.vals[o.N].String() })
+		case "vtokey":
+			_ = passes(func() { _ = px.ToKey(s.vals[o.N]) })
+		case "vequals":
+			_ = passes(func() { _ = s.vals[o.N].Equals(s.vals[o.M], nil) })
 		default:
 			panic("unknown operation " + o.Op)
 		}
@@ -270,8 +324,74 @@ func (s *hState) exec(k int) (crash string) {
 	return
 }
 
+// passes runs an asserting call: false when it ended in the reported type mismatch (the expected way to fail), any
+// other panic goes on to the caller
+func passes(f func()) (ok bool) {
+	defer func() {
+		if r := recover(); r != nil {
+			if _, rep := r.(issue.Reported); !rep {
+				panic(r)
+			}
+			ok = false
+		}
+	}()
+	f()
+	return true
+}
+
+func passedText(ok bool) string {
+	if ok {
+		return "passes"
+	}
+	return "reports a type mismatch"
+}
+
+func describing(op string) bool {
+	switch op {
+	case "assert", "mismatch", "asserttype", "describe":
+		return true
+	}
+	return false
+}
+
 // relation evaluates what the property states about operation j on the objects the operation returned
 func (s *hState) relation(j int) (ok bool, what string) {
+	ok, what, _, _ = s.relationC(j)
+	return
+}
+
+// relationC: the same with the clause and, for a question that fails when it is first put, the tags of its input class
+func (s *hState) relationC(j int) (ok bool, what string, clause string, tags func() []string) {
+	o := s.h.Ops[j]
+	clause = clauseOf(o.Op)
+	tags = func() []string { return s.freshTags(j) }
+	if o.Op == "accepts" {
+		v, T := s.vals[o.N], s.res[o.A.R]
+		var dt px.Type
+		asg, c1 := gBool(func() bool { dt = px.DetailedValueType(v); return px.IsAssignable(T, dt) })
+		ins, c2 := gBool(func() bool { return px.IsInstance(T, v) })
+		if c1 != "" || c2 != "" {
+			s.fault = true
+			return false, fmt.Sprintf("T=%s v=%s: %s %s", tyText(T), lat.ValText(v), c1, c2), "crash", func() []string { return []string{"crash-detailed-check"} }
+		}
+		s.ans[j] = [2]bool{asg, ins}
+		switch {
+		case asg && !ins:
+			return false, fmt.Sprintf("%s accepts %s, the detailed type of %s, but the value is not an instance of it", tyText(T), tyText(dt), lat.ValText(v)),
+				"detailed_sound", func() []string { return soundTags(types.VerifDecodeType(T), types.VerifDecodeType(dt)) }
+		case ins && !asg && !hasUndefEntry(types.VerifDecodeValue(v)):
+			return false, fmt.Sprintf("%s is an instance of %s, which does not accept its detailed type %s", lat.ValText(v), tyText(T), tyText(dt)),
+				"detailed_complete", func() []string {
+					return completeTags(types.VerifDecodeType(T), types.VerifDecodeType(dt), types.VerifDecodeValue(v))
+				}
+		}
+		return true, "", "detailed_sound", tags
+	}
+	ok, what = s.relationT(j)
+	return
+}
+
+func (s *hState) relationT(j int) (ok bool, what string) {
 	o := s.h.Ops[j]
 	r := s.res[j]
 	if r == nil {
@@ -335,7 +455,7 @@ func (s *hState) freshTags(j int) []string {
 // runHistory makes the operations in order; after each one the relations of all operations so far are evaluated.
 // It stops at the first relation that held when its operation was made and does not hold any more.
 func runHistory(h *history, res *lib.Result, trace func(string)) *hState {
-	s := &hState{h: h, res: make([]px.Type, len(h.Ops)), held: make([]bool, len(h.Ops))}
+	s := &hState{h: h, res: make([]px.Type, len(h.Ops)), held: make([]bool, len(h.Ops)), ans: make([][2]bool, len(h.Ops))}
 	_, crash := lat.Guarded(func() bool { s.vals = h.buildValues(); return true })
 	if crash != "" {
 		return nil
@@ -346,7 +466,14 @@ func runHistory(h *history, res *lib.Result, trace func(string)) *hState {
 		}
 	}
 	for k := range h.Ops {
-		if crash := s.exec(k); crash != "" {
+		crash := s.exec(k)
+		if crash != "" && describing(h.Ops[k].Op) {
+			// what a describing call does with its arguments is C19's property; here it is a step of the history only
+			res.Count("history.describer-fault")
+			s.fault = true
+			crash = ""
+		}
+		if crash != "" {
 			res.Violate(lib.Violation{Clause: "crash", What: fmt.Sprintf("history, operation %d (%s): %s", k, h.Ops[k].Op, crash),
 				Input: h.clone(k + 1), Tags: []string{"crash-history-" + h.Ops[k].Op}})
 			s.failed = true
@@ -360,17 +487,16 @@ func runHistory(h *history, res *lib.Result, trace func(string)) *hState {
 			}
 		}
 		for j := 0; j <= k; j++ {
-			cl := clauseOf(h.Ops[j].Op)
-			if cl == "" || (j < k && !s.held[j]) {
+			if clauseOf(h.Ops[j].Op) == "" || (j < k && !s.held[j]) {
 				continue
 			}
 			res.Evaluations++
-			ok, what := s.relation(j)
+			ok, what, cl, tags := s.relationC(j)
 			if j == k {
 				s.held[k] = ok
 				if !ok {
 					// as for a single operation (the classes of the open findings keep their tags)
-					res.Violate(lib.Violation{Clause: cl, What: what, Input: h.clone(k + 1), Tags: s.freshTags(k)})
+					res.Violate(lib.Violation{Clause: cl, What: what, Input: h.clone(k + 1), Tags: tags()})
 					if trace != nil {
 						trace("FAILS: " + what)
 					}
@@ -758,6 +884,7 @@ func randomHistory(r *lib.Rng) *history {
 	}
 	litTypes := append(operandBases(), lat.Enum(false, "a", "b", "c"), lat.Enum(false, "b", "c"), lat.Arr(lat.Enum(false, "a", "b", "c"), 0, 3),
 		lat.Arr(lat.StrVal("d"), 1, 1), lat.A("String"), lat.A("Any"))
+	askLits := askRandomTypes()
 	nLeaves := 2 + r.Intn(5)
 	for i := 0; i < nLeaves; i++ {
 		k := r.Intn(len(leaves))
@@ -818,7 +945,31 @@ func randomHistory(r *lib.Rng) *history {
 			}
 			return typed[r.Intn(len(typed))]
 		}
-		switch c := r.Intn(20); {
+		askRef := func() int { // a Struct / Hash / Tuple type over the alphabet of the graph, or any type so far
+			if r.Chance(1, 4) {
+				return ref()
+			}
+			k := b.lit(askLits[r.Intn(len(askLits))])
+			typed = append(typed, k)
+			return k
+		}
+		switch c := r.Intn(28); {
+		case c >= 20 && c < 23:
+			b.accepts(askRef(), node())
+		case c == 23:
+			b.op(hOp{Op: []string{"assert", "mismatch"}[r.Intn(2)], A: &hRef{askRef()}, N: node()})
+		case c == 24:
+			x, y := askRef(), ref()
+			b.op(hOp{Op: []string{"asserttype", "describe"}[r.Intn(2)], A: &hRef{x}, B: &hRef{y}})
+		case c == 25:
+			// the detailed type of an object, described against a type
+			d := b.detailed(node())
+			typed = append(typed, d)
+			b.op(hOp{Op: []string{"asserttype", "describe"}[r.Intn(2)], A: &hRef{askRef()}, B: &hRef{d}})
+		case c == 26:
+			b.op(hOp{Op: []string{"vstring", "vtokey"}[r.Intn(2)], N: node()})
+		case c == 27:
+			b.op(hOp{Op: "vequals", N: node(), M: node()})
 		case c < 8:
 			typed = append(typed, b.ptype(node()))
 		case c < 11:
@@ -884,7 +1035,30 @@ func tyInModel(d *types.VerifTy) bool { return outInModel(d) && allASCII(d, nil)
 // gHistory prints the history as (list node * list op * list ty): the modelled operations only (a literal type is
 // an operand RTy, the read-only calls are left out), and the types the returned objects hold NOW.
 func gHistory(s *hState, pats, strs map[string]bool) (term string, ok bool) {
+	return gHistoryQ(s, pats, strs, false)
+}
+
+// hasAsk: the history puts the question or makes an asserting / describing call (Model/InferAsk.v, cases_ask_*)
+func hasAsk(h *history) bool {
+	for _, o := range h.Ops {
+		if o.Op == "accepts" || describing(o.Op) {
+			return true
+		}
+	}
+	return false
+}
+
+// gHistoryQ with ask: (list node * list qop * (list ty * list (bool * bool))) - the operations of InferHist.v wrapped in
+// QOp, the questions (QAccepts: the two answers as they were when last asked, i.e. at the end of the history), the
+// asserting calls (QAssert, QAssertType: passed or reported a mismatch; QMismatch: no observable); DescribeMismatch on
+// two types and the read-only calls are left out.
+func gHistoryQ(s *hState, pats, strs map[string]bool, ask bool) (term string, ok bool) {
 	h := s.h
+	if s.fault || (hasAsk(h) != ask) {
+		return "", false
+	}
+	var answers []string
+	pair := func(a, b bool) string { return "(" + lib.GBool(a) + ", " + lib.GBool(b) + ")" }
 	nodes := make([]string, len(h.Nodes))
 	for i, n := range h.Nodes {
 		cs := make([]string, len(n.C))
@@ -941,6 +1115,34 @@ func gHistory(s *hState, pats, strs map[string]bool) (term string, ok bool) {
 	}
 	for k, o := range h.Ops {
 		if s.res[k] == nil {
+			if !ask {
+				continue
+			}
+			switch o.Op {
+			case "accepts", "assert", "mismatch":
+				gt, dT, ok1 := ref(o.A)
+				if !ok1 || !lat.InModel(dT) || !allASCII(dT, nil) {
+					return "", false
+				}
+				switch o.Op {
+				case "accepts":
+					ops = append(ops, fmt.Sprintf("QAccepts (%s) %s", gt, lib.GNat(o.N)))
+					answers = append(answers, pair(s.ans[k][0], s.ans[k][1]))
+				case "assert":
+					ops = append(ops, fmt.Sprintf("QAssert (%s) %s", gt, lib.GNat(o.N)))
+					answers = append(answers, pair(s.ans[k][0], s.ans[k][0]))
+				default:
+					ops = append(ops, fmt.Sprintf("QMismatch (%s) %s", gt, lib.GNat(o.N)))
+				}
+			case "asserttype":
+				gt, dT, ok1 := ref(o.A)
+				ga, dA, ok2 := ref(o.B)
+				if !ok1 || !ok2 || !lat.InModel(dT) || !lat.InModel(dA) || !allASCII(dT, nil) || !allASCII(dA, nil) {
+					return "", false
+				}
+				ops = append(ops, fmt.Sprintf("QAssertType (%s) (%s)", gt, ga))
+				answers = append(answers, pair(s.ans[k][0], s.ans[k][0]))
+			}
 			continue
 		}
 		d := types.VerifDecodeType(s.res[k])
@@ -974,7 +1176,10 @@ func gHistory(s *hState, pats, strs map[string]bool) (term string, ok bool) {
 			}
 			g = "OGeneralize (" + ga + ")"
 		}
-		index[k] = len(ops)
+		index[k] = len(obs)
+		if ask {
+			g = "QOp (" + g + ")"
+		}
 		ops = append(ops, g)
 		obs = append(obs, lat.GTy(d))
 	}
@@ -986,6 +1191,9 @@ func gHistory(s *hState, pats, strs map[string]bool) (term string, ok bool) {
 	}
 	for i := range ops {
 		ops[i] = "(" + ops[i] + ")"
+	}
+	if ask {
+		return fmt.Sprintf("(%s, %s, (%s, %s))", lib.GList(nodes, "node"), lib.GList(ops, "qop"), lib.GList(obs, "ty"), lib.GList(answers, "bool * bool")), true
 	}
 	return fmt.Sprintf("(%s, %s, %s)", lib.GList(nodes, "node"), lib.GList(ops, "op"), lib.GList(obs, "ty")), true
 }
@@ -1003,6 +1211,7 @@ func runHistories(cfg *lib.Config, res *lib.Result, rng *lib.Rng) {
 	hs = append(hs, twoParentsHetero()...)
 	hs = append(hs, commonChains()...)
 	hs = append(hs, mergeTrees()...)
+	hs = append(hs, askHistories()...)
 	for i := 0; i < nRandom; i++ {
 		hs = append(hs, randomHistory(rng))
 	}
@@ -1056,15 +1265,32 @@ func runHistories(cfg *lib.Config, res *lib.Result, rng *lib.Rng) {
 
 	// M: the histories D failed on first (cap 20), then the families in rotation
 	shards := 2
-	files := make([]*lib.CasesFile, shards)
-	pats, strs := make([]map[string]bool, shards), make([]map[string]bool, shards)
+	files := make([]*lib.CasesFile, 2*shards) // cases_history_*, then cases_ask_*
+	pats, strs := make([]map[string]bool, 2*shards), make([]map[string]bool, 2*shards)
 	for i := range files {
 		files[i] = &lib.CasesFile{Imports: []string{"Model.Base", "Model.Ty", "Model.Lattice", "Model.Infer", "Model.InferHist", "Corr.CorrC01", "Corr.CorrC04"},
 			Typ: "list node * list op * list ty", Obligations: map[string]string{"history_model": "hist_mismatches orc cases"}}
+		if i >= shards {
+			files[i] = askCasesFile()
+		}
 		pats[i], strs[i] = map[string]bool{}, map[string]bool{}
 	}
-	added, inModel := 0, 0
+	added, inModel, addedAsk := 0, 0, 0
+	nAsk := nCoq * 5 / 7
 	add := func(s *hState) bool {
+		if hasAsk(s.h) {
+			i := shards + addedAsk%shards
+			if addedAsk >= nAsk+20 {
+				return false
+			}
+			g, ok := gHistoryQ(s, pats[i], strs[i], true)
+			if !ok {
+				return false
+			}
+			files[i].Add(g, s.h)
+			addedAsk++
+			return true
+		}
 		i := added % shards
 		g, ok := gHistory(s, pats[i], strs[i])
 		if !ok {
@@ -1093,10 +1319,25 @@ func runHistories(cfg *lib.Config, res *lib.Result, rng *lib.Rng) {
 			inModel++
 		}
 	}
+	// the histories with questions and asserting calls: the family `ask` and the random ones that have them
+	var askIdx []int
+	for i, x := range ran {
+		if hasAsk(x.s.h) {
+			askIdx = append(askIdx, i)
+		}
+	}
+	for tries := 0; addedAsk < nAsk && tries < 6*nAsk && len(askIdx) > 0; tries++ {
+		add(ran[askIdx[rng.Intn(len(askIdx))]].s)
+	}
 	res.Extra["histories_to_model"] = added
+	res.Extra["ask_histories_to_model"] = addedAsk
 	for i, cf := range files {
 		cf.Prelude = lat.Oracle(pats[i], strs[i])
-		res.CorrFiles = append(res.CorrFiles, cf.WriteTo(cfg.Out, fmt.Sprintf("cases_history_%d", i)))
+		name := fmt.Sprintf("cases_history_%d", i)
+		if i >= shards {
+			name = fmt.Sprintf("cases_ask_%d", i-shards)
+		}
+		res.CorrFiles = append(res.CorrFiles, cf.WriteTo(cfg.Out, name))
 	}
 }
 
@@ -1125,7 +1366,10 @@ func replayHistory(in interface{}, res *lib.Result, cfg *lib.Config) {
 	cf := &lib.CasesFile{Imports: []string{"Model.Base", "Model.Ty", "Model.Lattice", "Model.Infer", "Model.InferHist", "Corr.CorrC01", "Corr.CorrC04"},
 		Typ: "list node * list op * list ty", Obligations: map[string]string{"history_model": "hist_mismatches orc cases"}}
 	pats, strs := map[string]bool{}, map[string]bool{}
-	if g, ok := gHistory(s, pats, strs); ok {
+	if hasAsk(&h) {
+		cf = askCasesFile()
+	}
+	if g, ok := gHistoryQ(s, pats, strs, hasAsk(&h)); ok {
 		cf.Add(g, &h)
 	}
 	cf.Prelude = lat.Oracle(pats, strs)
